@@ -28,7 +28,7 @@ class TK:
 class HObj:
     """kind: list | dict | obj | bytearray | set"""
 
-    __slots__ = ("kind", "items", "exact", "kv", "writes", "cls", "attrs", "origin", "version", "label", "created_ctx", "base", "is_gen", "sure", "is_stream")
+    __slots__ = ("kind", "items", "exact", "kv", "writes", "cls", "attrs", "origin", "version", "label", "created_ctx", "base", "is_gen", "sure", "is_stream", "is_iter")
 
     def __init__(self, kind, cls=None, origin=None, label=""):
         self.kind = kind
@@ -45,6 +45,7 @@ class HObj:
         self.base = None  # bytearray(base) / list(base) source term when not exact
         self.is_gen = False
         self.is_stream = False  # bytearray standing for a write-only io.BytesIO()
+        self.is_iter = False  # list standing for an iterator over known items (concrete-control mode): next() takes the first one away
         self.sure = None  # dict: keys certainly present when not exact
 
     def clone(self) -> "HObj":
@@ -59,6 +60,7 @@ class HObj:
         o.base = self.base
         o.is_gen = self.is_gen
         o.is_stream = self.is_stream
+        o.is_iter = self.is_iter
         o.sure = set(self.sure) if self.sure is not None else None
         return o
 
